@@ -291,7 +291,7 @@ func hostileBytes(rng *rand.Rand) []byte {
 
 func checkC20(c *Ctx) error {
 	r := c.R
-	r.Rule = "random tables over the writable domain (writer's sections; bare keys; strings without quote/backslash/CR/LF and != true/false; bools; ints; finite floats) written with WriteTOMLFile and re-read with ParseTOMLFile; non-trivial = a distinct table with >=1 key whose round trip was compared value by value (type and bits). Plus hostile byte strings for the no-crash part and trivia-insertion variants of every written file."
+	r.Rule = "random tables over the writable domain (writer's sections; bare keys; strings without quote/backslash/CR/LF and != true/false; bools; ints; finite floats) written with WriteTOMLFile (onto fresh paths and onto existing, longer and shorter files) and re-read with ParseTOMLFile; non-trivial = a distinct table with >=1 key whose round trip was compared value by value (type and bits). Plus hostile byte strings for the no-crash part and trivia-insertion variants of every written file."
 	r.Assumptions = []string{"compiler/toml linked in-process from /repo's working tree (rig rebuilt by ./vcheck)", "an empty default table is outside the domain (not representable)", "strings are valid UTF-8"}
 	dir := c.Env.CaseDir("c20")
 	nTables := c.N(3000, 200000)
@@ -317,6 +317,15 @@ func checkC20(c *Ctx) error {
 	one := func(caseID string, d toml.TOMLData, rng *rand.Rand, widx int) {
 		r.Eval()
 		p := filepath.Join(dir, fmt.Sprintf("w%d.toml", widx))
+		// configuration files are rewritten in place: half of the writes land on an existing file
+		// holding another table, longer or shorter than the new content
+		if rng != nil && rng.IntN(2) == 0 {
+			if err, pn := safeWrite(p, genTable(rng), nil); err != nil || pn != "" {
+				r.Fail(core.Failure{Case: caseID, Signature: "write-failed", Detail: fmt.Sprintf("first write: err=%v panic=%s", err, pn), Replay: describe(d)})
+				return
+			}
+			r.Count("rewrites_of_an_existing_file", 1)
+		}
 		var ic map[string]map[string]string
 		if rng != nil && rng.IntN(3) == 0 { // the writer's own inline comments
 			ic = map[string]map[string]string{}
